@@ -24,7 +24,7 @@ SPEC = dict(
     required=["sibling_sets", "loads_compared", "show_compared", "dry_update_compared", "bool_spelling:yes",
               "bool_spelling:on", "bool_spelling:1", "bool_spelling:TRUE", "bool_spelling:no", "glob_entries",
               "legacy_section_loads", "explicit_self_entries_with_extra_pattern", "ini_layout:inline", "ini_layout:mixed",
-              "configs_without_file_patterns_section", "ini_mixed_quoting", "ini_quoted_booleans", "toml_string_booleans", "toml_single_pattern_as_string"],
+              "configs_without_file_patterns_section", "ini_mixed_quoting", "ini_quoted_booleans", "toml_string_booleans", "toml_single_pattern_as_string", "configs_with_indented_keys"],
     anchors=[("config", "_parse_cfg"), ("config", "_parse_toml"), ("config", "_parse_config"),
              ("config", "_parse_cfg_file_patterns"), ("config", "_iter_glob_expanded_file_patterns"),
              ("config", "_parse_raw_config")],
@@ -117,6 +117,7 @@ def gen_abstract(R, tdy):
     a["self_entry"] = R.choice([None, None, "default-only", "with-extra", "with-extra"])
     # no configured file at all: the (empty) file_patterns section may be left out entirely
     a["omit_empty_file_patterns_section"] = R.random() < 0.6
+    a["indent_keys"] = R.random() < 0.2
     return a
 
 
@@ -206,6 +207,18 @@ def serialise(a, syntax, R):
                 for p in pats[1:]:
                     lines.append(f"    {p}")
                 spelled["layout:" + ("inline" if len(pats) == 1 else "mixed")] = 1
+    if a.get("indent_keys"):
+        # the keys of the main section indented under its header (ordinary TOML style; uniformly indented keys are
+        # legal for configparser as well)
+        out, inside = [], False
+        for ln in lines:
+            if ln.startswith("["):
+                inside = ln == f"[{sect}]"
+            elif inside and ln and not ln.startswith("#"):
+                ln = "    " + ln
+            out.append(ln)
+        lines = out
+        spelled["indented_keys"] = 1
     return fname, "\n".join(lines) + "\n", spelled
 
 
@@ -284,6 +297,8 @@ def run_case(ctx, case):
                 ctx.count("toml_string_booleans")
             elif k == "toml_single_pattern_as_string":
                 ctx.count("toml_single_pattern_as_string")
+            elif k == "indented_keys":
+                ctx.count("configs_with_indented_keys")
             else:
                 ctx.count("bool_spelling:" + sp)
     if any("*" in key for key, _f, _p in a["entries"]):
@@ -315,7 +330,7 @@ def run_case(ctx, case):
             ctx.violation("other:file_patterns_differ", f"{tag}: loaded {sorted(fps)} expected {sorted(want)}", case=case,
                           observed=desc)
         own = cfg.file_patterns.get(r["fname"])
-        cv_line = [ln for ln in r["text"].splitlines() if ln.startswith("current_version")][0]
+        cv_line = [ln for ln in r["text"].splitlines() if ln.strip().startswith("current_version")][0]
         if a.get("self_entry") == "with-extra":
             ctx.count("explicit_self_entries_with_extra_pattern")
             norm_extra = projects.normalize(mods, a["vp"], "released as {version} !", a["legacy"])
